@@ -114,13 +114,13 @@ Example C14_fresh_refuted_for_shared :
     /\ legal (reach s (VPrivs (Some a))) (WPriv a (flip_p no_privs))
     /\ c14_enc (al_run enumA_std enumN_std privs_share (apply_write s (WPriv a (flip_p no_privs))) [OIsOn c14_x c14_me])
        <> c14_enc (al_run enumA_std enumN_std privs_share s [OIsOn c14_x c14_me])      (* C14_mutation_frame fails *)
-    /\ (forall s' l', al_run enumA_std enumN_std privs_share s [OChannelModes c14_x [43; 111]%N [c14_me]] = Some (s', l') ->
-          rd_value s' (VPrivs (Some a)) <> rd_value s (VPrivs (Some a))).              (* C14_stable fails *)
+    /\ option_map (fun x : astate * list (rvalue * result) => enc_result <$> rd_value (fst x) (VPrivs (Some a)))
+                  (al_run enumA_std enumN_std privs_share s [OChannelModes c14_x [43; 111]%N [c14_me]])
+       <> Some (enc_result <$> rd_value s (VPrivs (Some a))).                          (* C14_stable fails *)
 Proof.
   eexists _, _, _. split; [vm_compute; reflexivity|]. split; [vm_compute; reflexivity|]. split.
   { left. exists 1%positive. eexists. exists 2%positive. split; vm_compute; reflexivity. }
-  split; [split; vm_compute; set_solver|]. split; [vm_compute; congruence|].
-  intros s' l' H. vm_compute in H. inversion H; subst. vm_compute. congruence.
+  split; [split; vm_compute; set_solver|]. split; vm_compute; congruence.
 Qed.
 (* ... and with the code as it is, the same experiment shows nothing *)
 Example C14_copy_not_refuted :
@@ -135,12 +135,11 @@ Proof. eexists _, _, _. split; [vm_compute; reflexivity|]. split; vm_compute; re
 Lemma enumA_std_perm m : enumA_std m ≡ₚ map_to_list m. Proof. reflexivity. Qed.
 Lemma enumN_std_perm m : enumN_std m ≡ₚ map_to_list m. Proof. reflexivity. Qed.
 Example C14_hist_nonvacuous :
-  exists s K, hist enumA_std enumN_std s K /\ K <> ∅ /\ (5 < a_next s)%positive.
+  exists s K, hist enumA_std enumN_std s K /\ 5%positive ∈ K /\ (5 < a_next s)%positive.
 Proof.
-  destruct (al_step enumA_std enumN_std privs_Copy (al_new c14_me) (ONewChannel c14_x)) as [[[s1 v1] r1]|] eqn:E1; [|by vm_compute in E1].
-  pose proof (hist_op enumA_std enumN_std _ _ _ _ _ _ (hist_init enumA_std enumN_std c14_me) E1) as H1.
-  exists s1, (∅ ∪ reach s1 v1). split; [exact H1|]. vm_compute in E1. inversion E1; subst. split; [|vm_compute; reflexivity].
-  vm_compute. intros H. discriminate H.
+  eexists _, _. split.
+  - eapply hist_op; [apply (hist_init enumA_std enumN_std c14_me)|]. vm_compute. reflexivity.
+  - split; vm_compute; [|reflexivity]. set_solver.
 Qed.
 
 (* ---------- PART B ---------- *)
